@@ -30,9 +30,11 @@ MANIFEST = {
 }
 GEN = []
 PROPS_FILE = "Props/C14.v"
-MODEL_TARGETS = ["Model/UncertCases.v"]
-EXTRA_TARGETS = ["Model/UncertCases.v"]
-TRUSTED = ["Model/Uncert.v hand-written validation model, tied by correspondence"]
+MODEL_TARGETS = ["Model/UncertCases.v", "Model/MCCases.v"]
+EXTRA_TARGETS = ["Model/UncertCases.v", "Model/MCCases.v"]
+TRUSTED = ["Model/Uncert.v hand-written validation model, tied by correspondence",
+           "Model/MC.v find_mode (C16's hand-written model of utils.find_mode_and_uncertainty), tied here by the same direct calls "
+           "as in C16; theorems C14_mode_uncertainty, C14_mode_uncertainty_of_samples"]
 ASSUMPTIONS = ["arguments are ints, bools, finite floats, None, strings, lists of those (no NaN/inf, no numpy scalars)",
                "the propagated uncertainty of a calculated quantity is non-negative when it is created (C01/C02)"]
 
@@ -382,6 +384,25 @@ def correspondence(ctx):
         body = coq_list([coq_history(h, I) for h in chunk])
         shards.append(HEADER + I.text() + "Definition cases := {}.\nEval vm_compute in (bad_indices check_history cases).\n".format(body))
         index.append(("history", chunk))
+    # the model of find_mode_and_uncertainty (Model/MC.v, theorems C14_mode_uncertainty*) is C16's: tie it here as well
+    try:
+        from props import c16, mc_common
+        mcases = c16.small_scope_mode_cases()[:120] + [c16.gen_mode_case(rng) for _ in range(ctx.n(200, 3000))]
+        mobs = [c16.run_find_mode(c) for c in mcases]
+        keep = [(c, o) for c, o in zip(mcases, mobs) if o != ["skipped"]]
+        for k in range(0, len(keep), 400):
+            I = Interner()
+            body = coq_list([c16.coq_mode_case(c, o, I) for c, o in keep[k:k + 400]])
+            shards.append(mc_common.HEADER + I.text() + "Definition cases := {}.\n"
+                          "Eval vm_compute in (bad_indices check_mode cases).\n".format(body))
+            index.append(("mode", [dict(c, observed=o) for c, o in keep[k:k + 400]]))
+        res.evaluations += len(keep)
+        for _c in keep:
+            res.count("mode:find_mode_and_uncertainty")
+        res.extra["find_mode_cases"] = len(keep)
+    except Exception as ex:  # noqa  (the tie is then reported as not established)
+        res.disagreements.append({"name": "Model.MC.find_mode tie could not be run: {}: {}".format(type(ex).__name__, str(ex)[:120]),
+                                  "case": None})
     bads, logs = coq.run_case_files(ID, shards, keep=getattr(ctx, "keep_cases", False))
     for (kind, chunk), bad, log in zip(index, bads, logs):
         if bad is None:
@@ -390,7 +411,8 @@ def correspondence(ctx):
             continue
         for i in bad[0]:
             c = chunk[i]
-            name = {"ctor": "Model.Uncert.construct vs Measurement(v, e)",
+            name = {"mode": "Model.MC.find_mode vs utils.find_mode_and_uncertainty",
+                    "ctor": "Model.Uncert.construct vs Measurement(v, e)",
                     "array": "Model.Uncert.error_array vs MeasurementArray/XYDataSet/_get_error_array_helper",
                     "history": "Model.Uncert.step vs value/error/relative_error setters, use_* selectors, custom pair"}[kind]
             case = c if kind != "history" else {"kind": c["kind"], "seed": c.get("seed"), "ops": c["ops"], "start": c["start"]}
